@@ -117,12 +117,43 @@ structure Sig where
 
 /-! ## JSON rendering (cashu/cashu.go struct tags) -/
 
-/-- field names of cashu.Proof in struct order; `witness` and `dleq` are `omitempty` -/
-def proofFieldNames : List String := ["amount", "id", "secret", "C", "witness,omitempty", "dleq,omitempty"]
-/-- field names of cashu.DLEQProof; `r` is `omitempty` -/
-def dleqFieldNames : List String := ["e", "s", "r,omitempty"]
-/-- field names of cashu.BlindedMessage; `witness` is `omitempty` -/
-def blindedMessageFieldNames : List String := ["amount", "B_", "id", "witness,omitempty"]
+/-- json name and `omitempty` of each field, in struct order -/
+abbrev FieldTable := List (String × Bool)
+
+/-- the Go struct tag of a field -/
+def goTag (f : String × Bool) : String := if f.2 then f.1 ++ ",omitempty" else f.1
+
+/-- cashu.Proof -/
+def proofFields : FieldTable :=
+  [("amount", false), ("id", false), ("secret", false), ("C", false), ("witness", true), ("dleq", true)]
+/-- cashu.DLEQProof -/
+def dleqFields : FieldTable := [("e", false), ("s", false), ("r", true)]
+/-- cashu.BlindedMessage -/
+def blindedMessageFields : FieldTable := [("amount", false), ("B_", false), ("id", false), ("witness", true)]
+/-- nut03.PostSwapRequest -/
+def swapReqFields : FieldTable := [("inputs", false), ("outputs", false)]
+/-- nut04.PostMintBolt11Request -/
+def mintReqFields : FieldTable := [("quote", false), ("outputs", false), ("signature", true)]
+/-- nut04.PostMintQuoteBolt11Request -/
+def mintQuoteReqFields : FieldTable := [("amount", false), ("unit", false), ("pubkey", true)]
+/-- nut05.PostMeltBolt11Request -/
+def meltReqFields : FieldTable := [("quote", false), ("inputs", false), ("outputs", true)]
+/-- nut05.PostMeltQuoteBolt11Request -/
+def meltQuoteReqFields : FieldTable := [("request", false), ("unit", false), ("options", true)]
+/-- nut07.PostCheckStateRequest -/
+def checkStateReqFields : FieldTable := [("Ys", false)]
+/-- nut09.PostRestoreRequest -/
+def restoreReqFields : FieldTable := [("outputs", false)]
+
+/-- the keys of an object -/
+def Tree.keys : Tree → List String
+  | .node fs => fs.map (·.1)
+  | _ => []
+
+/-- the keys encoding/json emits for a struct: every field that is not `omitempty`, and an `omitempty` field iff
+    `present` says its value is non-empty -/
+def emitted (t : FieldTable) (present : String → Bool) : List String :=
+  (t.filter fun f => !f.2 || present f.1).map (·.1)
 
 /-- `DLEQProof`: `e`, `s` always, `r` iff non-empty -/
 def renderDLEQ (d : DLEQ) : Tree :=
